@@ -240,6 +240,13 @@ theorem isafe_hdrF : ISafe hdrF := by
   · exact ⟨rfl, rfl, rfl, Or.inl rfl⟩
   · exact ⟨rfl, rfl, rfl, Or.inl rfl⟩
 
+theorem isafe_msgF (m : Bytes) : ISafe (msgF m) := by
+  intro x; unfold msgF; split
+  · exact ⟨rfl, rfl, rfl, Or.inl rfl⟩
+  · exact ⟨rfl, rfl, rfl, Or.inl rfl⟩
+
+theorem Inv.setMsg {s : State} (h : Inv s) (i : Nat) (x : Strm) (m : Bytes) : Inv (s.setMsg i x m) := h.updStream i (isafe_msgF m)
+
 theorem isafe_markF : ISafe markF := by intro x; exact ⟨rfl, rfl, rfl, Or.inl rfl⟩
 
 /-- side goal of `Inv.closeStream`: the error handed to the RPC is a legal code -/
@@ -279,6 +286,7 @@ macro "inv_step" : tactic => `(tactic|
   | ((with_reducible apply Inv.closeStream); case he => legal)
   | (with_reducible apply Inv.orphan (he := cUnavailable_le))
   | (with_reducible apply Inv.updStream (hf := isafe_hdrF))
+  | (with_reducible apply Inv.setMsg)
   | ((with_reducible apply Inv.updStream); case hf => isafe)
   | ((with_reducible apply Inv.putOther); case hit => (intros; simp))
   | (with_reducible apply Inv.sendToken)
